@@ -441,13 +441,19 @@ def main():
     for cls, floor in prop.get("floors", {}).get(tier, prop.get("floors", {}).get("any", {})).items():
         got = total["rc_classes"].get(cls, 0)
         base = total["rc_classes"].get(prop.get("floor_base", {}).get(cls, ""), 0) or ev
+        if os.environ.get("VF_FLOOR_REPORT"):
+            log(f"[{pid}] floor {cls}: {got}/{base} = {got / base:.4f} vs {floor} (margin x{got / base / floor:.2f})")
         if got / base < floor:
             degraded.append(f"class {cls}: {got}/{base} < floor {floor}")
     for num, den, floor in prop.get("ratio_floors", []):
         n_, d_ = total["classes"].get(num, 0), max(1, total["classes"].get(den, 0))
+        if os.environ.get("VF_FLOOR_REPORT"):
+            log(f"[{pid}] floor ratio {num}/{den}: {n_ / d_:.4f} vs {floor} (margin x{n_ / d_ / floor:.2f})")
         if n_ / d_ < floor:
             degraded.append(f"ratio {num}/{den} = {n_}/{d_} < floor {floor}")
     for cls, need in prop.get("min_counts", {}).items():
+        if os.environ.get("VF_FLOOR_REPORT"):
+            log(f"[{pid}] floor count {cls}: {total['classes'].get(cls, 0)} vs {need} (margin x{total['classes'].get(cls, 0) / max(1, need):.2f})")
         if total["classes"].get(cls, 0) < need:
             degraded.append(f"class {cls}: only {total['classes'].get(cls, 0)} cases, at least {need} expected")
 
